@@ -124,7 +124,7 @@ def build_harness(ctx):
         amalgam += f'#line 1 "{f}"\n{t}\n'
     with open(os.path.join(ctx.scratch, 'literals_amalgam.c'), 'w', encoding='utf-8', errors='surrogateescape') as f:
         f.write(amalgam)
-    rc, o, e = sh(['gcc', '-O1', '-g', '-w', '-fsanitize=address,undefined', '-fno-sanitize=shift-base', '-fno-sanitize-recover=all',
+    rc, o, e = sh(['gcc', '-O1', '-g', '-w', '-fsanitize=address,undefined', '-fno-sanitize-recover=all',
                    '-I', ctx.snapshot, '-I', ctx.scratch, os.path.join(VERIF, 'tools/harness/literals_harness.c'), '-o', exe], timeout=600)
     if rc != 0:
         raise BuildFailure('literals harness does not compile against the snapshot: ' + e[-1500:])
